@@ -42,9 +42,14 @@ META = {
 
 def run(ctx):
     ctx.assume("the policy table Required[module.method] of RpcAuth.tla is the intended policy")
-    ctx.assume("module implementations are stubs; only reachability is observed")
+    ctx.assume("module implementations are stubs (only reachability is observed), except node.AuthNew / "
+               "AuthNewWithExpiry / AuthVerify which run the real nodebuilder/node module")
     r = ctx.tlc("rpc/RpcAuth.tla", "rpc/RpcAuth.cfg", workers=4, timeout=600, heap="2g")
     rs = ctx.tlc("rpc/RpcSession.tla", "rpc/RpcSession.cfg", workers=4, timeout=600, heap="2g")
+    rm = ctx.tlc("rpc/RpcMint.tla", "rpc/RpcMint.cfg", workers=4, timeout=600, heap="2g")
+    mints = rm.printed.get("MINT", [])
+    if rm.ok and not mints:
+        ctx.inconclusive("TLC printed no behaviours of RpcMint.tla")
     behaviours = rs.printed.get("BEH", [])
     if rs.ok and not behaviours:
         ctx.inconclusive("TLC printed no behaviours of RpcSession.tla")
@@ -60,7 +65,7 @@ def run(ctx):
         ctx.inconclusive("matrix incomplete: %d cells for %d methods x %d presented credentials x 2" % (len(cases), n_methods, len(presentations)))
     path = os.path.join(ctx.work, "cases.json")
     with open(path, "w") as f:
-        json.dump({"cases": cases, "behaviours": behaviours, "table": table, "granted": r.printed["GRANTED"][0],
+        json.dump({"cases": cases, "behaviours": behaviours, "mints": mints, "table": table, "granted": r.printed["GRANTED"][0],
                    "sensitive": r.printed["SENSITIVE"][0]}, f)
     rep = ctx.go_driver("rpc", env={"VERIF_CASES": path, "VERIF_REPO_PATH": vlib.REPO}, timeout=900)
     c = rep.get("counters", {})
@@ -74,7 +79,12 @@ def run(ctx):
     missing = [k for k in ("wire_reached", "wire_missing-permission", "wire_unauthorized", "calls_auth-on",
                            "calls_auth-off", "sensitive_reached_with_write_or_admin", "calls_repeated",
                            "histories_across_expiry", "history_expired_refused_after_valid_use",
-                           "client_calls_agree", "batch_elements_agree") if c.get(k, 0) == 0]
+                           "client_calls_agree", "batch_elements_agree", "mint_uses_agree", "mint_verify_agree",
+                           "mints_across_expiry", "mint_refused_as_specified") if c.get(k, 0) == 0]
+    if mints and c.get("mint_behaviours", 0) != len(mints):
+        ctx.inconclusive("driver replayed %d of %d mint behaviours" % (c.get("mint_behaviours", 0), len(mints)))
+    if c.get("mints_discarded_slow", 0) * 5 > max(1, c.get("mint_behaviours", 0)):
+        ctx.inconclusive("machine too slow: %d mint behaviours could not be observed before expiry" % c.get("mints_discarded_slow", 0))
     missing += ["calls_form_" + f for f in sorted({k["form"] for k in cases}) if c.get("calls_form_" + f, 0) == 0]
     if behaviours and c.get("histories", 0) != len(behaviours):
         ctx.inconclusive("driver replayed %d of %d histories" % (c.get("histories", 0), len(behaviours)))
@@ -92,7 +102,8 @@ def run(ctx):
     if c.get("refusal_kind_differs", 0):
         ctx.note("refusal kind differs in %d cells: %s" % (c["refusal_kind_differs"],
                  "; ".join(str(v) for k, v in s.items() if k.startswith("refusal_kind_differs_example"))))
-    ctx.cover(traces_validated_against_impl=c.get("cells_agree", 0) + c.get("histories", 0) - c.get("histories_discarded_slow", 0),
+    ctx.cover(traces_validated_against_impl=c.get("cells_agree", 0) + c.get("histories", 0) - c.get("histories_discarded_slow", 0)
+              + c.get("mint_behaviours", 0) - c.get("mints_discarded_slow", 0),
               evaluations=c.get("calls", 0),
               distinct_nontrivial=len([k for k in cases if k["auth"]]),
               rule="one case per cell of the matrix method x credential class x auth; non-trivial = authentication "
